@@ -51,6 +51,9 @@
 (*                 checkpoint loop and before getCheckpointedCFHeaders     *)
 (*   FixSelfConsistency resolveConflict bans a peer whose cfheaders do not *)
 (*                 lead from / to the checkpoints the same peer served     *)
+(*                 (nobody if every checked peer is inconsistent)          *)
+(*   FixRefreshLists  after a failed resolveConflict the cached checkpoint *)
+(*                 lists are dropped, the next attempt fetches them anew   *)
 (***************************************************************************)
 EXTENDS Integers, Sequences, FiniteSets, TLC, Json, CFSyncProps
 
@@ -68,7 +71,7 @@ CONSTANTS NP,         \* number of peers
           MaxExtN,    \* largest header batch
           Scen,       \* set of scenarios [asg, bt, ft, hard]
           FixCPNoPanic, FixURecheck, FixChainCheck, FixNoQueryNoBan,
-          FixRollbackMemTip, FixSnapshotCheck, FixSelfConsistency
+          FixRollbackMemTip, FixSnapshotCheck, FixSelfConsistency, FixRefreshLists
 
 VARIABLES sc,      \* [asg, hard]  behaviour assignment, hard-coded checkpoint height (constant)
           bs,      \* block header store: block ids by height
@@ -174,7 +177,10 @@ MinCP == IF SetOf(allp) = {} \/ cpc = <<>> THEN 0 ELSE ((Len(cpc) - 1) \div CPI)
 \* isOnBlockHeaderChain: the tip of chain c is still in the block store.
 OnChain(c) == c # <<>> /\ Len(c) <= Len(bs) /\ bs[Len(c)] = c[Len(c)]
 \* the cached lists were fetched for a chain we have left (loop head)
-StaleLists == FixSnapshotCheck /\ SetOf(allp) # {} /\ ~OnChain(cpc)
+\* ... or the round before failed and the handler dropped them (allp is only
+\* cleared by the next GcSend; while pc = "retry" the code's map is nil)
+StaleLists == \/ FixSnapshotCheck /\ SetOf(allp) # {} /\ ~OnChain(cpc)
+              \/ FixRefreshLists /\ pc = "retry" /\ SetOf(allp) # {}
 LostTip == FixSnapshotCheck /\ ~OnChain(lastC)
 ListOf(p) == [i \in 1..LCap |-> CkOf(p, cpc, i - 1)]
 
